@@ -103,6 +103,32 @@ def envKeyHitsNull (nullNames : List Bytes) (k : Bytes) : Bool :=
 def envHitsNull (nullNames : List Bytes) (keys : List Bytes) : Bool :=
   keys.any (envKeyHitsNull nullNames)
 
+/-! ### env: empty list value for an optional (pointer) slice parameter -/
+
+/-- slice-typed parameters of `Path` without an `UnmarshalEnv` (pointers in `OptionalPath`) -/
+def optSliceParams : List Bytes := [b!"RTSPUDPSOURCEPORTRANGE", b!"RPICAMERAAWBGAINS", b!"FORWARD", b!"ALWAYSAVAILABLETRACKS"]
+
+/-- `*[]string` parameters of `Conf` -/
+def optSliceGlobals : List Bytes := [b!"WEBRTCICESERVERS", b!"WEBRTCICEHOSTNAT1TO1IPS"]
+
+/-- Decidable class of the third finding: an environment variable with an EMPTY value that addresses a
+pointer-to-slice parameter (`MTX_PATHS_<NAME>_<slice parameter>` or one of the two deprecated global
+`*[]string` parameters). `loadEnvInternal` then calls `prv.Elem().Set(MakeSlice…)` without the
+`if prv.IsNil() { prv.Set(reflect.New(rt)) }` that the non-empty branch has, so it panics when the
+parameter is not set in the file. -/
+def envEmptyListKey (k v : Bytes) : Bool :=
+  v.isEmpty &&
+  [b!"MTX_", b!"RTSP_"].any fun p =>
+    p.isPrefixOf k &&
+      (let rest := k.drop p.length
+       optSliceGlobals.contains rest ||
+       (b!"PATHS_".isPrefixOf rest &&
+          (let r2 := rest.drop 6
+           let tok := r2.takeWhile (· ≠ 95)
+           !tok.isEmpty && optSliceParams.contains (r2.drop (tok.length + 1)))))
+
+def envEmptyList (kvs : List (Bytes × Bytes)) : Bool := kvs.any fun kv => envEmptyListKey kv.1 kv.2
+
 /-! ### byte-string helpers (strings.HasPrefix / Contains / Split) -/
 
 def hasPrefix (p s : Str) : Bool := p.isPrefixOf s
